@@ -31,6 +31,9 @@ TEXT = {
     "C08": dict(technique="property-based testing (rapid): validity predicate over every returned match + independent byte-offset model",
                 text="Generated-input search (balancing groups, captures in lookbehind/loops, 1-4 byte runes, U+FFFD, invalid bytes, invalid runes): every match from string and rune iterations satisfies the structural predicate and ByteRange equals the byte model of the original string; ByteRange, FindAllStringIndex and the adapter index methods agree. The same predicate also runs on every match inside the C01, C02, C03, C07, C15 harnesses.",
                 note="Byte model = utf8.DecodeRuneInString (invalid byte = one rune = one byte). Negative runes are outside the input domain.", ref="§6 C08"),
+    "C09": dict(technique="property-based testing (rapid): reference fold over the match sequence with an independent $-grammar expander",
+                text="Generated-input search over patterns x inputs x $-grammar replacement strings (valid, ambiguous, literal-$) x startAt x count x both directions: Replace == fold(match sequence, own expander); ReplaceFunc(same expansion) == Replace; Replace($&) == input; Split(count) == fold with groups interleaved and its pieces re-joined with the matched texts rebuild the input.",
+                note="The match sequence comes from Find*StartingAt + FindNextMatch (validated by C07). $+ read as the last group in Groups() order. ECMAScript excluded.", ref="§6 C09"),
 }
 
 PENDING = "check not built yet in this session (work in progress; see DESIGN.md section 6 for the planned generated-input check)"
